@@ -179,7 +179,12 @@ func TestVerifC13(t *testing.T) {
 		defer o.w.close()
 		st.eval()
 		e2TraceHash(st, o.w)
-		if sig, msg := judgeSrv(s, o); sig != "" {
+		if sig, msg := judgeSrv(s, o); sig != "" && e2Confirmed(st, o.w, func(d []vs.Step) string {
+			o2 := runSrv(nil, s, d)
+			defer o2.w.close()
+			s2, _ := judgeSrv(s, o2)
+			return s2
+		}) {
 			vReport(vViolation{Property: "C13", Slot: "rapid:C13", Signature: sig, Message: msg, Replay: e2Replay{Scenario: s, Strategy: o.w.strategy, Decisions: o.w.trace(), Events: o.w.names(), TraceTail: o.w.describeTrace(40)}})
 			t.Fatalf("C13 violated [%s]: %s\nscenario: %+v\nlast steps:\n%s", sig, msg, s, o.w.describeTrace(30))
 		}
